@@ -72,6 +72,15 @@ CHECKS = {
         "Decomposition choice for adjacent placeholders left open; >4000-digit integers may be 404/next route or exact; route authors do not "
         "repeat placeholder names or put braces in literals.",
     ),
+    "C09": (
+        "exploration",
+        "exhaustive grid of mount tables x paths + Hypothesis nested tables against a reference prefix matcher; constructive host-pattern family with membership decided without re",
+        "All ordered mount tables of <= 3 entries over 5 prefixes x 14 paths x 2 root paths are enumerated, and nested tables (depth <= 3) are "
+        "generated; recorder sub-applications report the root path and path they see on both interfaces and are compared with a reference "
+        "(first entry on a segment boundary, prefix moved to the root path, full path preserved, 404 leaves the request mapping equal to a "
+        "snapshot). Host dispatch is checked with patterns from a constructive family and near-miss Host values.",
+        "WSGI paths compared after UTF-8 decoding of the bytes-as-Latin-1 form. Host patterns restricted to the constructive family.",
+    ),
     "C11": (
         "exploration",
         "exhaustive enumeration of call histories x server scripts against a reference automaton, plus Hypothesis-generated longer histories",
